@@ -51,7 +51,7 @@ _INDEXES = None
 def plan(tier):
     if tier == 'quick':
         return {'runs': 12000, 'budget_s': 45, 'chunk': 40, 'per_run_timeout': 300}
-    return {'runs': 120000, 'budget_s': 560, 'chunk': 40, 'per_run_timeout': 600}
+    return {'runs': 300000, 'budget_s': 540, 'chunk': 40, 'per_run_timeout': 600}
 
 
 def _loader(hd):
